@@ -86,10 +86,10 @@ func c10Gen(rt *rapid.T) wProg {
 		}
 		return gPick(rt, pool, "topic")
 	}
-	n := rapid.IntRange(4, 22).Draw(rt, "nops")
+	n := gInt(rt, 4, 22, "nops")
 	for i := 0; i < n; i++ {
-		s := rapid.IntRange(0, len(p.Sess)-1).Draw(rt, "s")
-		switch x := rapid.IntRange(0, 99).Draw(rt, "opk"); {
+		s := gInt(rt, 0, len(p.Sess)-1, "s")
+		switch x := gInt(rt, 0, 99, "opk"); {
 		case x < 14:
 			p.Ops = append(p.Ops, wOp{K: "sub", S: s, T: "me", B: gPick(rt, []string{"sub", "sub", "sub", ""}, "get")})
 		case x < 20:
@@ -118,14 +118,14 @@ func c10Gen(rt *rapid.T) wProg {
 			p.Ops = append(p.Ops, wOp{K: "set", S: s, T: t, A: "mode", B: gPick(rt, modes, "want")})
 		case x < 67:
 			// owner changes a member's grant (mute from above, ban, restore, invite)
-			p.Ops = append(p.Ops, wOp{K: "set", S: 0, T: "g0", A: "given", U: rapid.IntRange(1, 3).Draw(rt, "tgt"), B: gPick(rt, []string{"JRWPS", "JRW", "N", "JRWP"}, "given")})
+			p.Ops = append(p.Ops, wOp{K: "set", S: 0, T: "g0", A: "given", U: gInt(rt, 1, 3, "tgt"), B: gPick(rt, []string{"JRWPS", "JRW", "N", "JRWP"}, "given")})
 		case x < 70:
-			p.Ops = append(p.Ops, wOp{K: "del", S: 0, T: "g0", A: "sub", U: rapid.IntRange(1, 3).Draw(rt, "tgt")})
+			p.Ops = append(p.Ops, wOp{K: "del", S: 0, T: "g0", A: "sub", U: gInt(rt, 1, 3, "tgt")})
 		case x < 73:
 			p.Ops = append(p.Ops, wOp{K: "pub", S: s, T: topicFor(s)})
 		case x < 79:
 			what := gPick(rt, []string{"read", "recv", "kp"}, "what")
-			seq := rapid.IntRange(1, 2).Draw(rt, "seq")
+			seq := gInt(rt, 1, 2, "seq")
 			if what == "kp" {
 				seq = 0
 			}
